@@ -1,6 +1,7 @@
 package main
 
 import (
+	"context"
 	"database/sql"
 	_ "embed"
 	"encoding/json"
@@ -61,6 +62,24 @@ func openDB(sp dbSpec) error {
 		db.SetMaxIdleConns(sp.MaxIdle)
 	} else if sp.MaxOpen > 0 {
 		db.SetMaxIdleConns(sp.MaxOpen)
+	}
+	if sp.Class != "" && sp.MaxOpen > 0 {
+		// announce the connection class on every pooled connection (the fake server records it per connection)
+		ctx := context.Background()
+		var conns []*sql.Conn
+		for i := 0; i < sp.MaxOpen; i++ {
+			c, err := db.Conn(ctx)
+			if err != nil {
+				return fmt.Errorf("pin: %v", err)
+			}
+			if _, err := c.ExecContext(ctx, "SET @verif_class='"+sp.Class+"'"); err != nil {
+				return fmt.Errorf("set class: %v", err)
+			}
+			conns = append(conns, c)
+		}
+		for _, c := range conns {
+			c.Close()
+		}
 	}
 	dbsMu.Lock()
 	dbs[sp.Name] = db
